@@ -29,7 +29,7 @@ package utils
 
 // Incoming transfer: segments are appended to the buffer; the acknowledgement carries the number of bytes received
 // so far; the END flag finishes the transfer; segments of a foreign transfer or after the end are refused.
-// govc:func (*IncomingTransfer).NextSegment property C11
+// govc:func (*IncomingTransfer).NextSegment property C11 C04
 //@ requires t.buf != nil && dtm != nil
 //@ assigns t.endFlag, wstream(t.buf)
 //@ ensures old(t.endFlag) || t.Id != dtm.TransferId ==> err != nil && dam == nil && wpos(t.buf) == old(wpos(t.buf)) && t.endFlag == old(t.endFlag)
